@@ -2,11 +2,14 @@
    Proved here on the model of the `range` builtin (Core/Range.v, tied to core/core.go by ./check C19,
    which runs the extracted model and the implementation on the same argument lists) and on the
    package-table model (Core/PkgTables.v, whose table is regenerated from packages/*.go on every
-   run; the obligation on the regenerated table is Obligations/C19.v).  The conversions, keys, len,
-   typeOf and kindOf are compared with native Go computations by the check; they have no model of
-   their own beyond what Interp/ToX.v says about the same strconv-based parsing. *)
+   run; the obligation on the regenerated table is Obligations/C19.v), and on the model of toInt,
+   toFloat, the typed-slice forms, len and keys (Core/Builtins.v, run by ./check C19 through the
+   extracted entry c19b on the same values as the implementation, with strconv.ParseFloat as an
+   oracle table).  toString, toRune/toChar, the byte/rune slice forms, typeOf and kindOf are compared
+   with native Go computations by the check. *)
 From Coq Require Import String List ZArith Bool Lia.
-From Anko Require Import Base.Int64 Core.Range Core.PkgTables.
+From Coq Require Import Floats.SpecFloat.
+From Anko Require Import Base.Sexp Base.Int64 Base.F64 Interp.ToX Core.Range Core.PkgTables Core.Builtins Core.BuiltinProofs.
 Import ListNotations.
 Open Scope Z_scope.
 
@@ -48,8 +51,72 @@ Theorem table_entries_are_not_shadowed : forall es e,
   tables_ok es = true -> In e es -> pkg_lookup es (e_table e) (e_pkg e) (e_key e) = Some e.
 Proof. intros es e H. apply slots_unique_lookup. unfold tables_ok in H. now apply andb_prop in H as [_ H]. Qed.
 
+(* toInt: numbers by Go's numeric conversion, the decimal spelling of every int64 to that int64
+   (strconv.ParseInt), other strings through strconv.ParseFloat and truncation, 0 for nil, false,
+   containers and strings neither parser accepts; it never fails *)
+Theorem to_int_follows_go : forall pf,
+  (forall z, to_int pf (CInt z) = TOk z) /\ (forall f, to_int pf (CFloat f) = TOk (F64.to_int f))
+  /\ (forall z, in_int64b z = true -> to_int pf (CStr (Z_to_string z)) = TOk z)
+  /\ (forall s f, parse_int_dec s = None -> slookup pf s = Some (Some f) -> to_int pf (CStr s) = TOk (F64.to_int f))
+  /\ (forall s, parse_int_dec s = None -> slookup pf s = Some None -> to_int pf (CStr s) = TOk 0)
+  /\ to_int pf CNil = TOk 0 /\ (forall l, to_int pf (CList l) = TOk 0) /\ (forall m, to_int pf (CMap m) = TOk 0).
+Proof.
+  intro pf. destruct (to_int_zero pf) as (H1 & _ & H3 & H4 & H5).
+  repeat split; try assumption; try reflexivity.
+  - apply to_int_numeral.
+  - apply to_int_float_string.
+Qed.
+
+Theorem to_float_follows_go : forall pf,
+  (forall z, to_float pf (CInt z) = TOk (of_int z)) /\ (forall f, to_float pf (CFloat f) = TOk f)
+  /\ (forall s f, slookup pf s = Some (Some f) -> to_float pf (CStr s) = TOk f)
+  /\ (forall s, slookup pf s = Some None -> to_float pf (CStr s) = TOk fzero)
+  /\ to_float pf CNil = TOk fzero /\ (forall l, to_float pf (CList l) = TOk fzero) /\ (forall m, to_float pf (CMap m) = TOk fzero).
+Proof.
+  intro pf. repeat split; try reflexivity.
+  - intros s f H. rewrite to_float_string, H. reflexivity.
+  - intros s H. rewrite to_float_string, H. reflexivity.
+Qed.
+
+(* the typed-slice forms convert element by element, with the zero value for unconvertible elements *)
+Theorem typed_slices_convert_elementwise : forall l,
+  (length (to_int_slice l) = length l /\ forall i, nth i (to_int_slice l) 0 = elem_int (nth i l CNil))
+  /\ (length (to_float_slice l) = length l /\ forall i, nth i (to_float_slice l) fzero = elem_float (nth i l CNil))
+  /\ (length (to_bool_slice l) = length l /\ forall i, nth i (to_bool_slice l) false = elem_bool (nth i l CNil))
+  /\ (forall v, (forall z, v <> CInt z) -> (forall f, v <> CFloat f) -> elem_int v = 0 /\ elem_float v = fzero)
+  /\ (forall v, (forall b, v <> CBool b) -> elem_bool v = false).
+Proof.
+  intro l. destruct unconvertible_elements_are_zero as [H1 H2].
+  repeat split; try apply int_slice_elementwise; try apply float_slice_elementwise; try apply bool_slice_elementwise;
+    try (intros; apply H1; assumption); try (intros; apply H2; assumption).
+Qed.
+
+(* keys returns every key of a map exactly once, len counts them; on anything that has no length or
+   keys both are errors *)
+Theorem keys_every_key_exactly_once : forall kvs, NoDup (map fst kvs) ->
+  exists ks, keys (CMap kvs) = Some ks /\ NoDup ks /\ (forall k, In k ks <-> exists v, In (k, v) kvs)
+    /\ len (CMap kvs) = Some (Z.of_nat (length ks)).
+Proof. exact keys_exactly_once. Qed.
+
+Theorem len_keys_misuse_is_an_error : forall v,
+  (forall s, v <> CStr s) -> (forall l, v <> CList l) -> (forall m, v <> CMap m) -> len v = None /\ keys v = None.
+Proof. exact len_keys_misuse. Qed.
+
+(* the hypotheses are met: "-42", "1e3" (ParseFloat says 1000), "abc" (both parsers refuse) *)
+Example conversions_somewhere :
+  let pf := [("1e3"%string, Some (of_int 1000)); ("abc"%string, None)] in
+  to_int pf (CStr "-42") = TOk (-42) /\ to_int pf (CStr "1e3") = TOk 1000 /\ to_int pf (CStr "abc") = TOk 0
+  /\ to_int_slice [CInt 1; CStr "2"; CNil; CBool true] = [1; 0; 0; 0]
+  /\ keys (CMap [(CStr "a", CInt 1); (CInt 3, CNil)]) = Some [CStr "a"; CInt 3].
+Proof. vm_compute. repeat split. Qed.
+
 Print Assumptions range_is_the_progression.
 Print Assumptions range_rejects_misuse.
 Print Assumptions range_short_forms.
 Print Assumptions table_names_are_their_go_namesakes.
 Print Assumptions table_entries_are_not_shadowed.
+Print Assumptions to_int_follows_go.
+Print Assumptions to_float_follows_go.
+Print Assumptions typed_slices_convert_elementwise.
+Print Assumptions keys_every_key_exactly_once.
+Print Assumptions len_keys_misuse_is_an_error.
